@@ -10,7 +10,7 @@ from __future__ import annotations
 import ast
 
 from .. import sqlshape
-from ..boolguard import dedup_guard_rule
+from ..boolguard import dedup_guard_rule, post_mark_rule
 from ..model import AnalysisError, norm
 from ..paths import all_paths
 from ..seqrules import commits_after_synthetic, path_infos
@@ -52,6 +52,7 @@ def run(ctx, rep) -> None:
     rep.rule("C09.R4", "processed-mark only in the last commit of each handler path; transactional mark is INSERT OR IGNORE without commit; lookup reads the same table/key")
     rep.undecided += ["retention sweep of processed_messages (opt-in) narrows the window by design"]
     dedup_guard_rule(ctx, rep, "C09.R1")
+    post_mark_rule(ctx, rep, "C09.R4")
     cls = prog.cls(DEDUP, "BloomDeduplicator")
     M = cls.methods
     for need in ("_get_hash_positions", "_set_bit", "_get_bit", "maybe_seen", "mark_seen", "hydrate", "reset", "__init__"):
